@@ -280,4 +280,27 @@ theorem removeDead_step (p : People) (inv : Inv p) :
     simp [removeDead, deadUids_spec p inv, bind, Except.bind, hempty, pure, Except.pure]
 
 
+
+theorem filter_split_length (l : List Nat) (q t : Nat → Bool) :
+    (l.filter (fun x => !q x && t x)).length + (l.filter (fun x => q x && t x)).length = (l.filter t).length := by
+  induction l with
+  | nil => rfl
+  | cons x xs ih =>
+      simp only [List.filter_cons]
+      by_cases hq : q x <;> by_cases ht : t x <;> simp [hq, ht] <;> omega
+
+theorem aliveCount_eq (p : People) : aliveCount p = (p.auids.filter (fun u => (p.alive.cell u).truthy)).length :=
+  (C11.C11_len_count p.auids p.alive).2
+
+
+theorem cmp_eq_le (v w : Val) : (cmpVal .eq v w).truthy = true → (cmpVal .le v w).truthy = true := by
+  unfold cmpVal
+  split
+  · simp [Val.truthy]
+  · split
+    · rename_i x y _ _
+      simp only [Val.truthy, beq_iff_eq, decide_eq_true_eq]
+      intro h; rw [h]; exact Rat.le_refl
+    · simp [Val.truthy]
+
 end StarsimModel.C10
